@@ -10,6 +10,7 @@ pool clause was false for the Cleanup before fix d6561d4; `Witness.lean` keeps t
 import CaddyModel.C09.PoolLemmas
 import CaddyModel.C09.SchedLemmas
 import CaddyModel.C09.FuelLemmas
+import CaddyModel.C09.IterLemmas
 import CaddyModel.C09.Concrete
 import CaddyModel.C09.Witness
 import CaddyModel.Gen.ProxyCount
@@ -446,6 +447,33 @@ example : ((runSteps dinit [.load [0, 1] pDyn, .newReq true, .newReq true]).map 
 example : ((runSteps dinit [.load [0, 1] pDyn, .newReq true, .answer 0 "rst"]).map fun d =>
     (poolObj d.s 0, d.s.fails 0, d.s.inflight 2, d.s.nextHost)) = some (some 2, 1, 1, 4) := by decide
 
+/-- **in_flight_iteration_holds_its_upstream** — dynamic upstreams: as long as a request is dealing
+    with a Host in its current loop iteration — being sent to it, or between the return of
+    `reverseProxy` and the end of the iteration (countFailure, tryAgain) — the iteration still holds
+    that upstream in the pool, and the Host is the pooled one: the in-flight count and the failures
+    the selection of every other request consults for that address include this request.
+    (The deferred `hosts.Delete` belongs to proxyLoopIteration, not to anything that returns
+    earlier — the scope the seeded change C08-dynamic-upstream-host-deleted-early moved.) -/
+theorem in_flight_iteration_holds_its_upstream {s : State} (h : Reachable s) {r : Nat} {q : Req} {o : HostId}
+    (hq : s.reqs[r]? = some q) (hd : q.par.dynamic = true) (ho : q.pc.hostOf = some o) :
+    ∃ k, poolObj s k = some o ∧ 0 < refs s k := by
+  obtain ⟨c, cs, _, hcs, hnc, _, k, hu⟩ := iterInv_reachable h r q o hq hd ho
+  have hm : cs ∈ s.cfgs := mem_of_get hcs
+  have hp := poolInv_reachable h
+  have hh := hp.ups_held cs hm hnc k o hu
+  refine ⟨k, hp.same_obj cs hm k o hu hh, ?_⟩
+  rw [hp.refs_eq k]; exact held_pos_of_mem hm hh
+
+/-- request 0 of a handler with dynamic upstreams: its iteration (holder 1) provisioned key 7 and
+    it is being sent there -/
+example : ∃ s, Reachable s ∧ (s.reqs[0]?).map (fun q => (q.par.dynamic, q.pc.hostOf, q.holder)) = some (true, some 0, some 1) ∧
+    poolObj s 7 = some 0 ∧ refs s 7 = 1 :=
+  witness [.newCfg pDyn, .newReq 0 true, .newIter 0, .store 1 7, .dispatch 0 0] (by decide)
+
+/-- the holder of a running iteration cannot end under its request: the step is not enabled -/
+example : HoldsAfter [.newCfg pDyn, .newReq 0 true, .newIter 0, .store 1 7, .dispatch 0 0]
+    (fun s => (step s (.cancel 1)).isNone = true ∧ (step s (.cancel 0)).isSome = true) := by decide
+
 -- ---------------------------------------------------------------- the source premise
 
 /-- **dec_is_deferred_right_after_inc_in_source** — the syntactic premise of `dec_on_every_exit`,
@@ -472,9 +500,9 @@ example : (sstep dinit (.load [0, 1] pA)).isSome = true := by decide
     `retries` to 8 and the interpreter passes `fuel0 = 12` (see `FuelLemmas.advance_never_runs_out_of_fuel`
     for the general bound `retries still allowed < fuel`) -/
 theorem sched_never_runs_out_of_fuel (d : DState) (r : Nat) (q : Req) (hq : d.s.reqs[r]? = some q)
-    (hpc : q.pc = .start) (hcfg : ∃ cs, d.s.cfgs[q.cfg]? = some cs) (hr : q.par.retries ≤ 8) :
-    (advance fuel0 d r).isSome = true :=
-  advance_never_runs_out_of_fuel fuel0 d r q hq hpc hcfg (by simp only [fuel0]; omega)
+    (hpc : q.pc = .start) (hcfg : ∃ cs, d.s.cfgs[q.cfg]? = some cs) (hdyn : q.par.dynamic = false)
+    (hr : q.par.retries ≤ 8) : (advance fuel0 d r).isSome = true :=
+  advance_never_runs_out_of_fuel fuel0 d r q hq hpc hcfg hdyn (by simp only [fuel0]; omega)
 
 example : ((sstep dinit (.load [0, 1] { pA with retries := 8 })).bind fun x =>
     (sstep { x.1 with down := [0, 1] } (.newReq true)).map fun y => (y.2, (y.1.s.reqs.map (·.retries)))) = some ("err", [8]) := by
